@@ -46,7 +46,8 @@ class YowInterfaceLayer(YowLayer):
         """
         :type entity: IqProtocolEntity
         """
-        if entity.getTag() == "iq":
+        # only a result or an error is an answer: a request of the server's own (a ping) may carry the id of a pending request
+        if entity.getTag() == "iq" and entity.getType() in (IqProtocolEntity.TYPE_RESULT, IqProtocolEntity.TYPE_ERROR):
             iq_id = entity.getId()
             if iq_id in self.iqRegistry:
                 originalIq, successClbk, errorClbk = self.iqRegistry[iq_id]
